@@ -118,7 +118,7 @@ func c05Exponents(pk *gabikeys.PublicKey) []c05E {
 func c05Run(t *testing.T, sub, keyName string, honestBlocks int, qb, tb time.Duration) {
 	r := vkit.Start(t, "C05", sub, qb, tb)
 	defer r.Finish()
-	r.Rule = "honest signing + randomisation with each random draw forced to min/max/short (<=1 deviation); honest: message blocks of every length 1..len(R) (values rotate through {0,1,50,2^Lm-1,2^Lm,2^(Lm+200)+c}) signed by SignMessageBlock, verified, randomised 1..4 times; forged (trapdoor, equation holds): exponent catalogue of ~35 boundary primes/composites x 2 message blocks; alterations: every component +-1/0/swap, message count, other key, KeyshareP, each also on a struct copy of a previously verified signature object; non-trivial = distinct (block,e) or (block,alteration); oracle: reference CL predicate"
+	r.Rule = "honest signing + randomisation with each random draw forced to min/max/short (<=1 deviation); honest: message blocks of every length 1..len(R) (values rotate through {0,1,50,2^Lm-1,2^Lm,2^(Lm+200)+c}) signed by SignMessageBlock, verified, randomised 1..4 times (also a signature carrying a keyshare contribution); forged (trapdoor, equation holds): exponent catalogue of ~35 boundary primes/composites x 2 message blocks; alterations: every component +-1/0/swap, every message negated, message count (also beyond the number of bases), other key, KeyshareP, each also on a struct copy of a previously verified signature object; non-trivial = distinct (block,e) or (block,alteration); oracle: reference CL predicate"
 	k := vfK(keyName)
 	pk := k.Pk
 	env := vfInstallEnv(t, "C05/"+sub, r.Seed)
@@ -210,6 +210,19 @@ func c05Run(t *testing.T, sub, keyName string, honestBlocks int, qb, tb time.Dur
 			}
 			cur = nx
 		}
+		// a signature that carries a keyshare contribution stays valid under randomisation as well
+		if kpSig := c05Forge(k, ms, sig.E, new(big.Int).Exp(pk.R[0], vfTag("kss-secret"), pk.N)); kpSig != nil && kpSig.Verify(pk, ms) {
+			cur := kpSig
+			for i := 1; i <= 2; i++ {
+				nx, err := cur.Randomize(pk)
+				r.Eval()
+				if err != nil || !nx.Verify(pk, ms) {
+					r.Violate("C05|randomised-signature-rejected|with-keyshare-contribution", fmt.Sprintf("block %v: a valid signature with a keyshare contribution does not verify after %d randomisation(s) (err=%v, contribution kept: %v)", desc(ms), i, err, nx != nil && nx.KeyshareP != nil), desc(ms))
+					break
+				}
+				cur = nx
+			}
+		}
 		// (c) alterations of an honest signature
 		type alt struct {
 			name string
@@ -247,6 +260,13 @@ func c05Run(t *testing.T, sub, keyName string, honestBlocks int, qb, tb time.Dur
 				}
 				return m[:len(m)-1]
 			}},
+			{"block extended beyond the number of bases", func(s *CLSignature, m []*big.Int, _ **gabikeys.PublicKey) []*big.Int {
+				o := append([]*big.Int{}, m...)
+				for len(o) <= len(pk.R) {
+					o = append(o, vfInt(7))
+				}
+				return o
+			}},
 			{"message 0 appended", func(s *CLSignature, m []*big.Int, _ **gabikeys.PublicKey) []*big.Int {
 				if len(m) >= len(pk.R) {
 					return nil
@@ -268,6 +288,16 @@ func c05Run(t *testing.T, sub, keyName string, honestBlocks int, qb, tb time.Dur
 					}
 					o := append([]*big.Int{}, m...)
 					o[i], o[i+1] = o[i+1], o[i]
+					return o
+				}},
+				alt{fmt.Sprintf("m[%d] negated", i), func(s *CLSignature, m []*big.Int, _ **gabikeys.PublicKey) []*big.Int {
+					// (for messages longer than l_m the exponent is a hash of the message: of the message, not of its
+					// absolute value)
+					if m[i].Sign() == 0 {
+						return nil
+					}
+					o := append([]*big.Int{}, m...)
+					o[i] = new(big.Int).Neg(o[i])
 					return o
 				}},
 				alt{fmt.Sprintf("m[%d] replaced by its hash exponent", i), func(s *CLSignature, m []*big.Int, _ **gabikeys.PublicKey) []*big.Int {
@@ -299,6 +329,9 @@ func c05Run(t *testing.T, sub, keyName string, honestBlocks int, qb, tb time.Dur
 					ok = s3.Verify(key3, m3) || ok
 				}
 			}); pan {
+				if a.name == "block extended beyond the number of bases" {
+					r.Violate("C05|verification-panicked|block longer than the number of bases", fmt.Sprintf("block %v: Verify against a block of %d messages under a key with %d bases panics instead of returning false", desc(ms), len(pk.R)+1, len(pk.R)), desc(ms))
+				}
 				r.Count("panic (not accepted)", 1)
 				continue
 			}
